@@ -628,7 +628,9 @@ fn add_path_data<W: Write>(
 
                 // Beatmaps such as /b/1027526 have no control points so the
                 // path type needs to be followed by `,` instead of `|`.
-                writer.write_all(slice::from_ref(&separator(i)))?;
+                // For every later point its coordinates follow the type.
+                let type_separator = if i == 0 { separator(i) } else { b'|' };
+                writer.write_all(slice::from_ref(&type_separator))?;
 
                 last_type = Some(path_type);
             } else {
